@@ -11,7 +11,7 @@ from ..core import Result, fs, fl, F
 
 ID = "C05"
 RULE = ("seeded VRPTW instances with positive customer-to-customer travel times (2..4 nodes, windows in quarters incl. inf, costs of either sign) x "
-        "time grids given in any order (integer / quarter / sparse / window-end / complete); all 2^n vectors for n <= 14 (thorough 17): satisfies the "
+        "time grids given in any order (integer / quarter / sparse / window-end / complete); all 2^n vectors for n <= 14 (both tiers): satisfies the "
         "object's constraints <=> the selected moves decompose (independent implementation) into depot-to-depot routes with every customer exactly "
         "once; objective = summed arc costs; get_routes = that decomposition; non-trivial = at least one feasible and one infeasible vector with "
         "n >= 3; distinct = distinct case")
